@@ -446,8 +446,29 @@ func min(a, b int) int {
 	return b
 }
 
-func recLine(rc Rec, refName string) string {
-	return fmt.Sprintf("%s\t%d\t%s\t%d\t60\t%s\t*\t0\t0\t%s\t*", rc.Name, rc.Flag, refName, rc.Pos+1, rc.CigarString(), rc.Seq)
+// recLine renders one alignment line. The fields gofasta does not use (MAPQ, mate fields, QUAL,
+// optional tags) and the FLAG bits other than 0x4/0x100 vary: they must not matter.
+func recLine(r *fw.Rng, rc Rec, refName string) string {
+	if !r.Chance(0.4) {
+		return fmt.Sprintf("%s\t%d\t%s\t%d\t60\t%s\t*\t0\t0\t%s\t*", rc.Name, rc.Flag, refName, rc.Pos+1, rc.CigarString(), rc.Seq)
+	}
+	flag := rc.Flag | []int{0, 0x400, 0x200, 0x1 | 0x2 | 0x40, 0x1 | 0x80 | 0x20}[r.Intn(5)]
+	mapq := []int{0, 1, 30, 60, 255}[r.Intn(5)]
+	mate := "*\t0\t0"
+	if flag&0x1 != 0 {
+		mate = fmt.Sprintf("=\t%d\t%d", r.Range(1, rc.Pos+50), r.Range(-500, 500))
+	}
+	qual := "*"
+	if r.Chance(0.5) && len(rc.Seq) > 0 {
+		qual = strings.Repeat(string("I#5~!"[r.Intn(5)]), len(rc.Seq))
+	}
+	line := fmt.Sprintf("%s\t%d\t%s\t%d\t%d\t%s\t%s\t%s\t%s", rc.Name, flag, refName, rc.Pos+1, mapq, rc.CigarString(), mate, rc.Seq, qual)
+	for _, tag := range []string{"NM:i:3", "AS:i:77", "MD:Z:10A5^AC6", "SA:Z:" + refName + ",10,+,5S10M,60,0;", "RG:Z:grp1", "XS:f:0.5"} {
+		if r.Chance(0.25) {
+			line += "\t" + tag
+		}
+	}
+	return line
 }
 
 // MakeSam generates a SAM file over ref.
@@ -502,7 +523,7 @@ func MakeSam(r *fw.Rng, ref string, pr SamProfile) SamFile {
 		q := MakeQuery(r, name, ref, pr)
 		extra(name)
 		for j, rc := range q.Recs {
-			sb.WriteString(recLine(rc, sf.RefName))
+			sb.WriteString(recLine(r, rc, sf.RefName))
 			sb.WriteByte('\n')
 			for _, o := range rc.Cigar {
 				sf.OpHist[o.T]++
